@@ -21,7 +21,7 @@ RULE = (
     'and a non-cubic grid; distinct = SHA-1 of (cell, resolution, positions) / grid size.'
 )
 RULE += ' Added in rounds 6-9: result retention and a second volume on the same grid while the first is held; L/resolution within 1e-8..6e-4 of an integer; one grid of about 19 million voxels (large along all three axes).'
-RULE += ' Round 16: a sixth of the runs also stored in single precision (k/10 as float32).'
+RULE += ' Round 16: a sixth of the runs also stored in single precision (voxel-edge values k/n rounded to float32).'
 RULE += ' Round 14: the resolution is passed positionally in half of the calls.'
 RULE += ' Round 12: one volume (three in the thorough tier) binned from 4.3-5.5 million samples clustered in a few voxels, compared with a bincount of floor(x * n).'
 ASSUMPTIONS = [
@@ -236,7 +236,7 @@ def run_unit(unit, rng, ctx):
         from gemdat import Trajectory
         from pymatgen.core import Lattice
 
-        X32 = np.asarray(np.where(rng.uniform(size=X.shape) < 0.5, rng.integers(0, 10, size=X.shape) / 10.0, np.mod(X, 1)), dtype=np.float32)
+        X32 = np.asarray(np.where(rng.uniform(size=X.shape) < 0.6, rng.integers(0, n_exp[None, None, :], size=X.shape) / n_exp[None, None, :], np.mod(X, 1)), dtype=np.float32)  # k/n of the expected grid, rounded to float32 (half of them fall just below k/n)
         X32[X32 >= 1] = 0
         t32 = Trajectory(species=gen.species_objects(['Li'] * N), coords=X32.copy(), lattice=Lattice(m), time_step=1e-15, metadata={'temperature': 300.0})
         d32 = np.asarray(t32.to_volume(resolution=res).data)
